@@ -787,7 +787,14 @@ class AssignmentCheck(Check):
         stats = {}
         with World(rng_init=sc.get("rng_init", 0xC0FFEE)) as world:
             d = world.make_scratch()
-            world.patch(tr, "Pool", SimPool(sc["pool"], stats))
+            pool = SimPool(sc["pool"], stats)
+            import multiprocessing
+            import multiprocessing.pool
+            # the seam is the name `Pool` wherever the tree under test takes it from
+            seam_found = world.patch(tr, "Pool", pool)
+            world.patch(multiprocessing, "Pool", pool)
+            if not seam_found:
+                probes["pool_seam_moved"] = 1
             with lib_call("FullGrid"):
                 fg = FullGrid(sc["grid"]["b"], sc["grid"]["o"], sc["grid"]["t"])
                 full_array = np.array(fg.get_full_grid_as_array(), dtype=float)
